@@ -100,6 +100,21 @@ def run(ctx):
             fit = lentil.zernike_fit(L(opd), mask, modes, normalize=normalize, **kw)
             if not np.allclose(fit, c, rtol=0, atol=tol):
                 ctx.violation(dict(sig, kind='fit-of-compose'), dict(detail, coefficients=c, fitted=fit), case=None)
+            # a measured map carries no data outside the aperture: NaN there, or a sentinel.  The fit is over the MASK, so what the
+            # array holds outside of it cannot change the coefficients, and removing the modes leaves zero inside the mask
+            if (mask == 0).any():
+                for junk, jname in ((np.nan, 'nan'), (-9999.0, 'sentinel')):
+                    opd_j = np.where(mask != 0, opd, junk)
+                    try:
+                        fit_j = lentil.zernike_fit(L(opd_j), mask, modes, normalize=normalize, **kw)
+                        ok_fit = np.allclose(fit_j, c, rtol=0, atol=tol)
+                        res_j = lentil.zernike_remove(L(opd_j), mask, modes, **kw) if normalize else None
+                        ok_rem = res_j is None or np.allclose(np.asarray(res_j)[mask != 0], 0, atol=tol * (1 + np.abs(opd).max() / unit))
+                    except Exception as ex:
+                        ok_fit, ok_rem, fit_j = False, False, repr(ex)[:120]
+                    if not (ok_fit and ok_rem):
+                        ctx.violation(dict(sig, kind='samples-outside-the-mask-change-the-fit', outside=jname, fit_ok=bool(ok_fit), remove_ok=bool(ok_rem)),
+                                      dict(detail, coefficients=c, fitted=fit_j), case=None)
             if normalize:
                 # programs 2-4 (zernike_remove has no normalisation switch; it removes a least-squares component either way)
                 opd_r = L(nr.normal(size=mask.shape) * (mask != 0) * unit)
